@@ -173,7 +173,7 @@ def run(ctx) -> None:
     if fac_ctor and keys and isinstance(keys[0], ast.Tuple):
         ffields = an.dataclass_fields(an.factory_class)
         idx = ffields.index("name") if "name" in ffields else 2
-        stored = fac_ctor[0].args[idx] if len(fac_ctor[0].args) > idx else None
+        stored = fac_ctor[0].args[idx] if len(fac_ctor[0].args) > idx else next((k.value for k in fac_ctor[0].keywords if k.arg == "name"), None)
         rep.check("C18.R4", stored is not None and norm(stored) == norm(keys[0].elts[1]), f, fac_ctor[0], "factory table key (t, n) implies stored factory name n", "the stored factory's name differs from the name in its table key")
 
     # R3 package-wide: nobody dispatches resource_added on another context
